@@ -132,18 +132,20 @@ Definition upd_assoc {A : Type} (k : N) (f : A -> A) (d : A) (l : list (N * A)) 
 
 Definition srows (S : structure) (r : N) : list (list N) := assoc_d [] r (st_rows S).
 
+Definition gmap (lo hi x : N) : N := if x =? hi then lo else x.
+
+(* [hi] is replaced by [lo] everywhere (as a root and in rows) *)
+Definition merged (S : structure) (lo hi : N) : structure :=
+  {| st_elems := map (fun tc => (fst tc, map (fun er => (fst er, gmap lo hi (snd er))) (snd tc)))
+                     (st_elems S);
+     st_rows := map (fun rr => (fst rr, nodup_rows (map (map (gmap lo hi)) (snd rr)))) (st_rows S);
+     st_handles := st_handles S |}.
+
 (* merging and inserting do nothing if an argument is not an element of the structure *)
 Definition merge (S : structure) (a b : N) : structure * bool :=
   match find_root_cls (st_elems S) a, find_root_cls (st_elems S) b with
   | Some ra, Some rb =>
-      if ra =? rb then (S, false) else
-      let lo := N.min ra rb in
-      let hi := N.max ra rb in
-      let g := fun x => if x =? hi then lo else x in
-      ({| st_elems := map (fun tc => (fst tc, map (fun er => (fst er, g (snd er))) (snd tc)))
-                          (st_elems S);
-          st_rows := map (fun rr => (fst rr, nodup_rows (map (map g) (snd rr)))) (st_rows S);
-          st_handles := st_handles S |}, true)
+      if ra =? rb then (S, false) else (merged S (N.min ra rb) (N.max ra rb), true)
   | _, _ => (S, false)
   end.
 
@@ -157,21 +159,24 @@ Fixpoint roots_opt (cls : list (N * list (N * N))) (row : list N) : option (list
       end
   end.
 
+Definition with_row (S : structure) (r : N) (row : list N) : structure :=
+  {| st_elems := st_elems S;
+     st_rows := upd_assoc r (fun l => l ++ [row]) [] (st_rows S);
+     st_handles := st_handles S |}.
+
 Definition add_row (S : structure) (r : N) (row : list N) : structure * bool :=
   match roots_opt (st_elems S) row with
   | None => (S, false)
-  | Some row' =>
-      if mem_row row' (srows S r) then (S, false) else
-      ({| st_elems := st_elems S;
-          st_rows := upd_assoc r (fun l => l ++ [row']) [] (st_rows S);
-          st_handles := st_handles S |}, true)
+  | Some row' => if mem_row row' (srows S r) then (S, false) else (with_row S r row', true)
   end.
 
+Definition with_elem (S : structure) (ty n : N) : structure :=
+  {| st_elems := upd_assoc ty (fun l => l ++ [(n, n)]) [] (st_elems S);
+     st_rows := st_rows S;
+     st_handles := st_handles S |}.
+
 Definition new_elem (S : structure) (ty : N) : structure * N :=
-  let n := next_id S in
-  ({| st_elems := upd_assoc ty (fun l => l ++ [(n, n)]) [] (st_elems S);
-      st_rows := st_rows S;
-      st_handles := st_handles S |}, n).
+  (with_elem S ty (next_id S), next_id S).
 
 Definition has_prefix (args row : list N) : bool := list_eqb args (removelast row).
 
@@ -188,16 +193,18 @@ Definition res_type (p : program) (f : N) : N :=
   end.
 
 Definition def_app (p : program) (S : structure) (f : N) (args : list N) : structure * bool :=
-  match roots_opt (st_elems S) args with
-  | None => (S, false)
-  | Some args' =>
-      match lookup_fun (srows S f) args' with
-      | Some _ => (S, false)
-      | None =>
-          let Sn := new_elem S (res_type p f) in
-          (fst (add_row (fst Sn) f (args' ++ [snd Sn])), true)
-      end
-  end.
+  if is_func p f then
+    match roots_opt (st_elems S) args with
+    | None => (S, false)
+    | Some args' =>
+        match lookup_fun (srows S f) args' with
+        | Some _ => (S, false)
+        | None =>
+            let Sn := new_elem S (res_type p f) in
+            (fst (add_row (fst Sn) f (args' ++ [snd Sn])), true)
+        end
+    end
+  else (S, false).
 
 Definition apply_merge (S : structure) (a : action) : structure * bool :=
   match a with Merge x y => merge S x y | _ => (S, false) end.
@@ -212,8 +219,18 @@ Definition apply_list (f : structure -> action -> structure * bool)
 
 Inductive round_result := Fix | Changed (S : structure).
 
+(* actions are kept only if they mention root elements of the current state only (always the
+   case when rows mention roots only; the filter saves proving it) *)
+Definition act_ok (U : list N) (a : action) : bool :=
+  match a with
+  | AddRow _ row => forallb (fun x => memN x U) row
+  | Merge x y => memN x U && memN y U
+  | DefApp _ args => forallb (fun x => memN x U) args
+  end.
+
 Definition round_actions (p : program) (S : structure) : list action :=
-  let M := model_of S in collect_rules M (pg_rules p) ++ func_actions p M.
+  let M := model_of S in
+  filter (act_ok (univ M)) (collect_rules M (pg_rules p) ++ func_actions p M).
 
 Definition chase_round (p : program) (S : structure) : round_result :=
   let acts := round_actions p S in
